@@ -52,7 +52,7 @@ let pyval_of_token (t : String.t) : pyval =
 let exn_name = function
   | ExReError -> "ReError" | ExNoneGroup -> "NoneGroup" | ExPopEmpty -> "PopEmpty"
   | ExIntTooLong -> "IntTooLong" | ExAssert -> "Assert" | ExIndex -> "Index"
-  | ExUnsupported -> "Unsupported"
+  | ExUnsupported -> "Unsupported" | ExFilter -> "Filter"
 
 let ob = function None -> "n" | Some true -> "b1" | Some false -> "b0"
 let expand_tok e =
